@@ -125,3 +125,28 @@ Example c09_unique_nonvacuous :
 Proof.
   split; [repeat constructor; intros []|]. split; [split; constructor|]. repeat constructor.
 Qed.
+
+
+(** REFUTED on the faithful model (finding F16): "a Pod the Job does not control is never
+    treated as its task" is false over histories.  The own Pod of attempt 0 vanishes and is
+    recorded lost; attempt 1 is created; then a Pod that is NOT controlled by the Job appears
+    under the name of attempt 0: the next pass binds the recorded task to it by name alone and
+    reports the foreign Pod's state (running since 110) as the task's - the status now shows
+    two live tasks for one index.  The same history is the corpus case
+    F16-foreign-pod-bound-by-name of the job stream. *)
+Theorem c09_foreign_pod_never_a_task_refuted :
+  exists cfg j0 now ops,
+    let w := jrun_world cfg (init_jworld j0 now) ops in
+    option_map (fun a => map (fun r => (tr_name r, st_state (tr_status r), tr_running r)) (j_tasks a)) (api_job w)
+      = Some [("j-aaaaaa-0", TRunning, Some 110); ("j-aaaaaa-1", TStarting, None)] /\
+    map (fun p => (p_name p, p_controlled p)) (api_pods w) = [("j-aaaaaa-0", false); ("j-aaaaaa-1", true)].
+Proof.
+  exists (mkCfg (Some 900) (Some 900) (Some 3600)),
+    (mkJob ["aaaaaa"] false AllSuccessful 2 0 false false None false None None false true None (Some 10)
+           [] 0 0 None (CWaiting WPendingCreation) PhStarting SWaiting), 100,
+    [JSync; JAdvanceJob 9; JAdvancePods 9; JKubelet "j-aaaaaa-0" KVanish; JAdvanceJob 9; JAdvancePods 9; JSync; JClock 110;
+     JForeign "aaaaaa" 0; JAdvanceJob 9; JAdvancePods 9; JSync; JAdvanceJob 9; JAdvancePods 9;
+     JKubelet "j-aaaaaa-0" KSchedule; JKubelet "j-aaaaaa-0" KRun; JAdvancePods 9; JSync].
+  vm_compute. split; reflexivity.
+Qed.
+Print Assumptions c09_foreign_pod_never_a_task_refuted.
